@@ -7,6 +7,7 @@ import EaselModel.Sqio.FetchWhole
 import EaselModel.Sqio.FetchMore
 import EaselModel.Sqio.GeomBridge
 import EaselModel.Sqio.TrackBytes
+import EaselModel.Sqio.TrackReader
 /-! # C07 — fetching by key, number or coordinates returns what a sequential scan returns
 
 Property theorems only (proofs are glue on `Sqio/Geometry.lean`, `Sqio/Tracker.lean`).
@@ -127,6 +128,36 @@ theorem tracker_over_bytes_is_tracker_over_counts (inmap : Bytes) :
         = scanRec t (GeomBridge.recOf (BodySpec.isRes inmap) segs rest)) :=
   ⟨fun hm s c hd => TrackBytes.stepByte_trk inmap hm s c hd,
    fun segs rest hs hr t => TrackBytes.fold_record inmap segs rest hs hr t⟩
+
+/-- **the reader loop of `create_ssi_index`, for EVERY read-block size, computes the per-record step of `scanFile`.** `scanLoop false`
+    is the body loop of `sqascii_ReadInfo` (`loadbuf` / `seebuf` until the record's data end). From any well-formed block-mode handle
+    standing behind a record's header, the tracker just reset by `header_*` (`a.trk = step t hdr`), whatever the block size and
+    wherever the blocks cut the lines, the loop leaves `scanRec t` of the line counts of the record's data bytes — the bytes from the
+    cursor up to the first byte that is not sequence data, cut at their newlines (`TrackReader.recOfData`). Composes
+    `DataScan.scanLoop_info` (C04: the loop = the byte fold over the file), `TrackReader.scanBytes_trk` (the byte fold stops at the
+    first non-data byte), `TrackReader.splitEol_spec` and `TrackBytes.fold_record`. Together with `bplrpl_sound` (whose `scanFile` folds
+    exactly this `scanRec` over the records) only "`header_*` changes nothing but prv/cur" and the final read of bpl / rpl by the tool
+    remain tied by the differential run alone. -/
+theorem readInfo_body_tracker (a : Ascii) (sq : Sq) (t : Track) (fuel : Nat) (h : Refine.WF a) (ht : a.trk = Tracker.step t Ev.hdr)
+    (hm : a.inmap.size = 128) (hfuel : (DataScan.fileFrom a).length + 1 < fuel)
+    (hst : (DataScan.dataFold a (DataScan.fileFrom a).length).2.2 ≠ .eformat) :
+    (scanLoop false fuel a sq).1.trk
+      = scanRec t (TrackReader.recOfData a.inmap ((DataScan.fileFrom a).takeWhile (BodySpec.isData a.inmap))) :=
+  TrackReader.infoBody_trk a sq t fuel h ht hm hfuel hst
+
+/-- the data bytes of a record really are terminated lines followed by an unterminated rest, and `recOfData` counts exactly them -/
+theorem recOfData_lines (inmap : Bytes) (d : List UInt8) :
+    d = (TrackReader.splitEol inmap d []).1.flatten ++ (TrackReader.splitEol inmap d []).2 ∧
+    (∀ l ∈ (TrackReader.splitEol inmap d []).1, TrackBytes.Terminated inmap l) ∧
+    (∀ c ∈ (TrackReader.splitEol inmap d []).2, BodySpec.code inmap c ≠ Tables.dsqEol) ∧
+    TrackReader.recOfData inmap d
+      = GeomBridge.recOf (BodySpec.isRes inmap) (TrackReader.splitEol inmap d []).1 (TrackReader.splitEol inmap d []).2 := by
+  obtain ⟨s1, s2, s3⟩ := TrackReader.splitEol_spec inmap d [] (by simp)
+  exact ⟨by simpa using s1, s2, s3, rfl⟩
+
+/-- non-vacuity: `ACGT\nAC\nA` (bytes of a FASTA record's data) is the lines (5, 4), (3, 2) and the unterminated rest (1, 1) -/
+example : TrackReader.recOfData (inmapFasta 0) [65, 67, 71, 84, 10, 65, 67, 10, 65] = ⟨[(5, 4), (3, 2)], some (1, 1)⟩ := by
+  decide +kernel
 
 /-- **(the "neither" case) line-based formats are always fetched by brute force.** EMBL / UniProt / GenBank / DDBJ map the newline to
     "ignored", so their data scanner produces no end-of-line event (only `header_*` resets and the tail update of `seebuf`): the tracker
